@@ -118,6 +118,10 @@ impl ImageHeader {
                 let header = match format {
                     0x01 => {
                         // Only known format is 1 = JPEG
+                        //
+                        // The version 1 header is 16 octets long. Any other length can not be
+                        // written back (and octets beyond the header would be taken for image data).
+                        ensure_eq!(length, 16, "invalid jpeg image header length");
                         let data = data.read_arr::<12>()?;
                         ImageHeaderV1::Jpeg { data }
                     }
